@@ -215,10 +215,11 @@ CHECKS = {
         "quick": [
             {"name": STAKE + "ZZ_C14_S1", "reach": ["S1 end"], "bound": "<=3 stakes, symbolic powers in (0,2^55], ratio in [0,100]"},
             {"name": STAKE + "ZZ_C14_S3", "reach": ["S3 end"], "bound": "<=4 marks in (0,2^40), symbolic window"},
+            {"name": STAKE + "ZZ_C14_S45", "reach": ["S45 end", "S45 jailed"], "bound": "state as in C11/B1 (2 delegatees x <=2 stakes, symbolic powers), <=2 earlier missed heights of A1, height 5 or 6, symbolic window / minimum in [1,6] and slash ratio; BeginBlock with evidence in {none, A0 once, A0 twice, unknown validator} and A1's vote signed or missed"},
             {"name": GOV + "ZZ_C14_S2", "reach": ["S2 end"], "bound": "one open proposal with 3 voters (symbolic power, optional vote, optional re-vote) and 2 options; evidence against voter 0/1/2 or a stranger; symbolic slash ratio"},
         ],
-        "bounds": "S1: <=3 stakes per delegatee; S3: <=4 marks",
-        "outside": "more stakes/marks than the bound; jailing branch and governance punishment are decided by S2/S4/S5 when registered",
+        "bounds": "S1: <=3 stakes per delegatee; S3: <=4 marks; S45: 2 delegatees x <=2 stakes, <=2 pieces of evidence; S2: 3 voters x 2 options",
+        "outside": "more stakes / marks / voters than the bounds; evidence and downtime in the same block for the same validator",
         "assumptions": A_COMMON,
     },
 }
